@@ -10,6 +10,7 @@ import (
 	"sort"
 	"strconv"
 	"strings"
+	"sync"
 	"time"
 )
 
@@ -39,6 +40,7 @@ type Failure struct {
 }
 
 type Env struct {
+	mu    sync.Mutex
 	Work  string
 	Seed  int64
 	Tier  string
@@ -70,6 +72,8 @@ func (e *Env) thorough() bool { return e.Tier == "thorough" }
 // count records one evaluation of the given kind; key identifies distinct
 // non-trivial cases (empty key = trivial).
 func (e *Env) count(kind string, key string) {
+	e.mu.Lock()
+	defer e.mu.Unlock()
 	e.Res.Evaluations++
 	e.Res.Distribution[kind]++
 	if key != "" && !e.seen[key] {
@@ -79,12 +83,16 @@ func (e *Env) count(kind string, key string) {
 }
 
 func (e *Env) sample(v interface{}) {
+	e.mu.Lock()
+	defer e.mu.Unlock()
 	if len(e.Res.Samples) < 12 {
 		e.Res.Samples = append(e.Res.Samples, v)
 	}
 }
 
 func (e *Env) fail(sig, what string, replay interface{}) {
+	e.mu.Lock()
+	defer e.mu.Unlock()
 	if len(e.Res.Failures) < 50 {
 		e.Res.Failures = append(e.Res.Failures, Failure{sig, what, replay})
 	}
@@ -189,3 +197,6 @@ func writeCases(work, imports, typ string, cases []string, per int) []string {
 }
 
 func os_getenv(k string) string { return os.Getenv(k) }
+
+// newLocalRng returns a goroutine-local PRNG derived from the run's seed.
+func newLocalRng(seed int64) *rand.Rand { return rand.New(rand.NewSource(seed)) }
